@@ -81,18 +81,22 @@ Print Assumptions installed_is_prefixes_map.
 
 (* daemon_keeps_mirror: not only is the installer right when it runs — the daemon runs it whenever needed.  For ANY RIB
    implementation (type ribT, the view the installer reads, a step per advertisement and per dead neighbour, each
-   returning the dirty flag) whose flag is sound (false -> view unchanged: C18's change_flag_sound) and whose
-   dead-neighbour step leaves no entry pointing at that neighbour, and for every history of handler runs — neighbour
+   returning the dirty flag) whose flag is sound (false -> the view has the same entries: C18's rib_update_flag / rib_dead_flag) and whose
+   dead-neighbour step leaves no entry pointing at that neighbour (all under an invariant rib_inv of RIB states that
+   the steps preserve), started with at most the router's own entry, and for every history of handler runs — neighbour
    pings with face changes (accepted or ignored), advertisements, dead-neighbour sweeps, prefix Data from any router,
    own announcements, extra fibUpdates, all map orders — in which fibUpdate runs exactly when the code runs it (face
    changed / dirty / Apply dirty), the route table equals `desired` of the current tables after EVERY handler. *)
 Theorem daemon_keeps_mirror :
   forall (ribT : Type) (rib_view : ribT -> list ribent) (rib_ev : Type)
-         (rib_step : ribT -> rib_ev -> ribT * bool) (rib_dead : ribT -> N -> ribT * bool),
-  (forall r e, snd (rib_step r e) = false -> rib_view (fst (rib_step r e)) = rib_view r) ->
-  (forall r n, snd (rib_dead r n) = false -> rib_view (fst (rib_dead r n)) = rib_view r) ->
-  (forall r n x, n <> 0 -> In x (rib_view (fst (rib_dead r n))) -> re_nh1 x <> n /\ re_nh2 x <> n) ->
-  forall me r0 evs, rib_view r0 = [] ->
+         (rib_step : ribT -> rib_ev -> ribT * bool) (rib_dead : ribT -> N -> ribT * bool)
+         (rib_inv : ribT -> Prop),
+  (forall r e, rib_inv r -> rib_inv (fst (rib_step r e))) ->
+  (forall r n, rib_inv r -> rib_inv (fst (rib_dead r n))) ->
+  (forall r e, rib_inv r -> snd (rib_step r e) = false -> forall x, In x (rib_view (fst (rib_step r e))) <-> In x (rib_view r)) ->
+  (forall r n, rib_inv r -> snd (rib_dead r n) = false -> forall x, In x (rib_view (fst (rib_dead r n))) <-> In x (rib_view r)) ->
+  (forall r n x, rib_inv r -> n <> 0 -> In x (rib_view (fst (rib_dead r n))) -> re_nh1 x <> n /\ re_nh2 x <> n) ->
+  forall me r0 evs, rib_inv r0 -> (forall x, In x (rib_view r0) -> re_name x = me) ->
   forall p f,
     rt_lookup (d_rt ribT (drun ribT rib_view rib_ev rib_step rib_dead me r0 evs)) (p, f) =
     desired (tables_of ribT rib_view (drun ribT rib_view rib_ev rib_step rib_dead me r0 evs)) p f.
@@ -104,7 +108,7 @@ Print Assumptions daemon_keeps_mirror.
    no fibUpdate: this is the frame the daemon's "dirty" tests rely on; the harness checks the daemon's own decisions
    at every quiescent point of kind-"net" histories). *)
 Theorem desired_depends_only_on : forall t t',
-  t_me t' = t_me t -> t_rib t' = t_rib t ->
+  t_me t' = t_me t -> (forall r, In r (t_rib t') <-> In r (t_rib t)) ->
   (forall r, In r (t_rib t) -> face_of (t_nbr t') (re_nh1 r) = face_of (t_nbr t) (re_nh1 r) /\
                                 face_of (t_nbr t') (re_nh2 r) = face_of (t_nbr t) (re_nh2 r)) ->
   (forall r, In r (t_rib t) -> re_l1 r < cost_infinity -> re_name r <> t_me t ->
